@@ -2,6 +2,7 @@ package idp
 
 import (
 	"crypto/ecdsa"
+	"crypto/ed25519"
 	"crypto/elliptic"
 	"crypto/rand"
 	"crypto/rsa"
@@ -41,6 +42,14 @@ func ECCertB64() string {
 	k, _ := ecdsa.GenerateKey(elliptic.P256(), rand.Reader)
 	tpl := &x509.Certificate{SerialNumber: big.NewInt(7), Subject: pkix.Name{CommonName: "ec"}, NotBefore: time.Now().Add(-time.Hour), NotAfter: time.Now().Add(time.Hour)}
 	der, _ := x509.CreateCertificate(rand.Reader, tpl, tpl, &k.PublicKey, k)
+	return base64.StdEncoding.EncodeToString(der)
+}
+
+// Ed25519CertB64 returns a self-signed Ed25519 certificate
+func Ed25519CertB64() string {
+	pub, priv, _ := ed25519.GenerateKey(rand.Reader)
+	tpl := &x509.Certificate{SerialNumber: big.NewInt(8), Subject: pkix.Name{CommonName: "ed"}, NotBefore: time.Now().Add(-time.Hour), NotAfter: time.Now().Add(time.Hour)}
+	der, _ := x509.CreateCertificate(rand.Reader, tpl, tpl, pub, priv)
 	return base64.StdEncoding.EncodeToString(der)
 }
 
